@@ -69,12 +69,14 @@ let rec strip_unused = function
   | [A "#unused"] -> []
   | x :: r -> x :: strip_unused r
 
-let ty_of = function
+let rec ty_of = function
   | L [A "hint"; A "Int"] -> TInt
   | L [A "hint"; A "Bool"] -> TBool
   | L [A "hint"; A "String"] -> TStr
   | L [A "hint"; A "Unit"] -> TUnit
   | L [A "hint"; A "List"; L [A "hint"; A "Int"]] -> TListInt
+  | L [A "hint"; A "Option"; h] -> TOpt (ty_of h)
+  | L [A "hint"; A "Tuple"; h1; h2] -> TPair (ty_of h1, ty_of h2)
   | L [A "nohint"] -> raise (Outside "missing annotation")
   | _ -> raise (Outside "annotation outside the fragment")
 
@@ -86,6 +88,15 @@ let rec conv (funs : string list) (x : sx) : tm =
      | [A "str"; S s] -> TmStr (chars s)
      | [A "var"; A "True"] -> TmBool true
      | [A "var"; A "False"] -> TmBool false
+     | [A "var"; A "None"] -> TmNone
+     | [A "call"; L [A "var"; A "Some"]; L [A "args"; a]] -> TmSome (conv funs a)
+     | A "match" :: sc :: cases -> TmMatch (conv funs sc, List.map (conv_case funs) cases)
+     | [A "for"; L [A "sym"; A x]; it; b] ->
+       if x = "_" then raise (Outside "for with _") else TmFor (sym x, conv funs it, conv_block funs b)
+     | [A "return"; e] -> TmReturn (conv funs e)
+     | [A "tuple"; a; b] -> TmPair (conv funs a, conv funs b)
+     | [A "let"; L [A "destructure"; L [A "sym"; A x]; L [A "sym"; A y]]; L [A "nohint"]; e] ->
+       if x = "_" || y = "_" then raise (Outside "destructuring with _") else TmLetPair (sym x, sym y, conv funs e)
      | [A "var"; A v] -> if List.mem v funs then raise (Outside "function used as a value") else TmVar (sym v)
      | A "list" :: its -> TmList (List.map (conv funs) its)
      | [A "bin"; A op; l; r] -> TmBin (bop_of op, conv funs l, conv funs r)
@@ -105,6 +116,12 @@ let rec conv (funs : string list) (x : sx) : tm =
      | A k :: _ -> raise (Outside ("expression kind " ^ k))
      | _ -> raise (Outside "expression shape"))
   | _ -> raise (Outside "expected list")
+
+and conv_case funs = function
+  | L [A "case"; L [A "sym"; A "Some"]; L [A "sym"; A x]; b] ->
+    if x = "_" then raise (Outside "Some(_) pattern") else (PSome (sym x), conv_block funs b)
+  | L [A "case"; L [A "sym"; A "None"]; b] -> (PNone, conv_block funs b)
+  | _ -> raise (Outside "match pattern outside the fragment")
 
 and conv_block funs = function
   | L (A "block" :: es) -> List.map (conv funs) es
